@@ -240,6 +240,39 @@ def pMet : P String := do
       out := out ++ s!" | {showOpt st.ustar} {showOpt st.mol} {showOpt st.windSpeed} {showOpt st.windDir} {showOpt st.z0} {tss}"
   pure out
 
+def pSa : P String := do
+  let n ← pNat
+  let f ← pArr n
+  let perm ← pNats n
+  pEnd
+  let out := (List.range n).map (fun c => rescaled (fun i => idx f i) perm c)
+  pure (okLine out.toArray)
+
+def pPct : P String := do
+  let n ← pNat
+  let sorted ← pArr n
+  let cell ← pFloat
+  let pct ← pFloat
+  pEnd
+  if n == 0 then failure
+  let r := percentileContour FloatFns (fun i => idx sorted i) n cell pct
+  pure (okLine #[r.1, r.2])
+
+def pBase : P String := do
+  let kind ← tok
+  let x ← pFloat
+  let y ← pFloat
+  let xm ← pFloat
+  let ym ← pFloat
+  let u ← pFloat
+  let v ← pFloat
+  pEnd
+  if kind == "circular" then pure (okLine #[baseCircular x y xm ym])
+  else if kind == "upwind" then pure (okLine #[baseUpwind FloatFns x y xm ym u v])
+  else if kind == "crosswind" then pure (okLine #[baseCrosswind FloatFns x y xm ym u v])
+  else if kind == "sector" then pure (okLine #[baseSector FloatFns x y xm ym u v])
+  else failure
+
 def dispatch : P String := do
   let op ← tok
   if op == "solve" then pSolve
@@ -250,6 +283,9 @@ def dispatch : P String := do
   else if op == "phi" then pPsi true
   else if op == "profiles" then pProfiles
   else if op == "met" then pMet
+  else if op == "sa" then pSa
+  else if op == "pct" then pPct
+  else if op == "base" then pBase
   else failure
 
 def handle (line : String) : String :=
